@@ -38,7 +38,7 @@ PROPS = {
     "C11": {"families": ["symmetry_replace_simple", "symmetry_inequalities", "symmetry_equal_symbols", "symmetry_groups", "symmetry_bundle", "symmetry_process", "symmetry_execute"], "oracle": "sem"},
     "C12": {"families": ["minmax_analysis", "minmax_simple_translation", "minmax_chain_translation", "minmax_process_rule", "minmax_split_element", "minmax_replace_minimize", "minmax_replace_sum", "minmax_execute"], "oracle": "sem"},
     "C13": {"families": ["sumchains_agg_analytics", "sumchains_at_most_rule", "sumchains_init", "sumchains_get_trigger", "sumchains_element_passes", "sumchains_replace_elements", "sumchains_get_var", "sumchains_replace_optimize", "sumchains_execute"], "oracle": "sem"},
-    "C14": {"families": [], "oracle": "sem"},
+    "C14": {"families": ["math_sympy2ast", "math_ast2sympy_accepts"], "oracle": "sem"},
     "C15": {"families": ["unify_pairs", "unify_sequences", "inline_is_single", "inline_transform_args", "inline_body_aggregate", "inline_new_body_elements", "inline_minimize", "inline_rule_for_agg", "inline_rule_for_body", "inline_execute"], "oracle": "sem"},
     "C16": {"families": ["projection_subsets", "projection_good_split", "projection_rule", "projection_execute_core", "projection_execute"], "oracle": "sem"},
     "C19": {
